@@ -441,6 +441,12 @@ Definition in_block (outer : state) (x : option (value * state)) : option (value
   match x with Some (v, st) => Some (v, leave_block outer st) | None => None end.
 Definition state_of (x : option (value * state)) : option state := match x with Some (_, st) => Some st | None => None end.
 
+(* the condition of a while loop; a loop body as a block *)
+Definition wcond (c : expr) : state -> option bool :=
+  fun s1 => match eval (env s1) (cs s1) c with Some (VBool t) => Some t | _ => None end.
+Definition block_of (f : state -> option (value * state)) : state -> option state :=
+  fun s1 => state_of (in_block s1 (f s1)).
+
 (* ---------- execution: statements yield VUnit ---------- *)
 Fixpoint exec (fn : string) (s : tm) (st : state) {struct s} : option (value * state) :=
   match s with
@@ -524,11 +530,8 @@ Fixpoint exec (fn : string) (s : tm) (st : state) {struct s} : option (value * s
         | VErr w => in_block st1 (st2 <- bind_pat fn p2 w st1 ;; exec fn b st2)
         | _ => None
         end)
-  | SWhile c body =>
-      unit_of (while_loop (fun s1 => match eval (env s1) (cs s1) c with Some (VBool t) => Some t | _ => None end)
-                          (fun s1 => state_of (in_block s1 (exec fn body s1)))
-                          (List.length (glist (bg (cs st)))) st)
-  | SLoop body => unit_of (loop_n (fun s1 => state_of (in_block s1 (exec fn body s1))) loop_fuel st)
+  | SWhile c body => unit_of (while_loop (wcond c) (block_of (exec fn body)) (List.length (glist (bg (cs st)))) st)
+  | SLoop body => unit_of (loop_n (block_of (exec fn body)) loop_fuel st)
   | SRet r => bindr (exec fn r st) (fun v st1 => Some (VUnit, with_ret st1 (Some v)))
   | SUnknown _ => None
   end.
